@@ -3,6 +3,8 @@
 From Coq Require Import List ZArith Reals Lra Lia.
 From Coquelicot Require Import Coquelicot.
 Require Import PP.Expr PP.RealOps PP.PolyFacts PP.ExpTail PP.Gen.Kernels PP.Proofs.QuarticForm.
+(* the binary64-level statements of C09 live in C09F.v (no real-analysis imports); they are re-exported from here *)
+Require Export PP.Props.C09F.
 Import ListNotations.
 Local Open Scope R_scope.
 
